@@ -360,8 +360,15 @@ func podScenario(r *rand.Rand, marker bool) scenario {
 			case 1:
 				old.Generation = p.Generation + 1
 			}
-			if r.Intn(100) < 20 {
+			if r.Intn(100) < 30 {
 				rc := pick(r, rcPool)
+				if len(s.Cfg.ExRCs) > 0 && r.Intn(2) == 0 {
+					rc = s.Cfg.ExRCs[r.Intn(len(s.Cfg.ExRCs))] // an exempt class on the OLD pod only: exempts nothing
+					if cur := p.Spec.RuntimeClassName; cur != nil && *cur == rc {
+						p.Spec.RuntimeClassName = nil
+					}
+					why += "+old-exempt"
+				}
 				old.Spec.RuntimeClassName = &rc
 				why += "+old-runtimeclass"
 			}
@@ -863,6 +870,33 @@ func Adm(stream string, seed int64, n int, pf string, mix []string) (*cq.Set, *c
 		set.GoFails = append(set.GoFails, fails...)
 		if c.Term != "" {
 			set.Cases = append(set.Cases, c)
+		}
+	}
+	if pf == "pf13" || pf == "pf01" {
+		// many offending containers with long names under restricted enforce / audit / warn: the denial, the
+		// warning and the annotation must each still list every violated control in full
+		for _, mode := range []string{"enforce", "audit"} {
+			s := podScenario(r, false)
+			p := s.Req.Object.Pod
+			if p == nil {
+				p = classPod(r, "the-pod")
+			}
+			p.Spec = corev1.PodSpec{}
+			p.Annotations = nil
+			for k := 0; k < 40; k++ {
+				p.Spec.Containers = append(p.Spec.Containers, corev1.Container{Name: fmt.Sprintf("container-with-a-rather-long-name-%02d", k), Image: "img"})
+			}
+			s.Req = adm.ReqSpec{Group: "", Resource: "pods", Namespace: "ns", Name: "the-pod", User: "alice", Op: "CREATE", Object: adm.ObjSpec{Kind: "pod", Pod: p}, Old: adm.ObjSpec{Kind: "nil"}, Wire: mode == "audit"}
+			s.World = adm.WorldSpec{NSLabels: map[string]string{"pod-security.kubernetes.io/" + mode: "restricted", "pod-security.kubernetes.io/" + mode + "-version": "latest",
+				"pod-security.kubernetes.io/warn": "restricted", "pod-security.kubernetes.io/warn-version": "v1.25"}}
+			s.Cfg.ExNS, s.Cfg.ExUsers, s.Cfg.ExRCs = nil, nil, nil
+			s.LVs = candidateLVs([]map[string]string{s.World.NSLabels}, s.Cfg.Defaults)
+			s.Tags = []string{"req:pod", "op:CREATE", "object:pod", "long-message"}
+			c, fails := admCase(in, &s, real, marker)
+			set.GoFails = append(set.GoFails, fails...)
+			if c.Term != "" {
+				set.Cases = append(set.Cases, c)
+			}
 		}
 	}
 	for i := 0; i < n; i++ {
